@@ -307,8 +307,42 @@ pub fn gen_c17_corpus(args: &[String]) -> i32 {
             push(ev, &b, pool[3 % pool.len()], &mut lines);
         }
     }
+    // arithmetic on long operands: which algorithms the dependencies were built with (their own cargo
+    // features) shows in the last digits of quotients, remainders, products and elementary functions
+    let long_lit = |rng: &mut Rng, ev: Ev| -> String {
+        let digits = 1 + rng.below(if ev == Ev::I64 { 17 } else { 26 });
+        let mut t = String::new();
+        for k in 0..digits {
+            t.push(char::from(b'0' + if k == 0 { 1 + rng.below(9) } else { rng.below(10) } as u8));
+        }
+        if ev != Ev::I64 && rng.chance(3, 4) {
+            let at = rng.below(t.len() + 1);
+            t.insert(at, '.');
+            if at == 0 {
+                t.insert(0, '0');
+            }
+            if t.ends_with('.') {
+                t.push('0');
+            }
+        }
+        t
+    };
+    let n_long = n / 4;
+    for k in 0..n_long {
+        let ev = crate::val::ALL_EV[k % 5];
+        let (a, b, c) = (long_lit(&mut rng, ev), long_lit(&mut rng, ev), long_lit(&mut rng, ev));
+        let mut forms = vec![format!("{}/{}", a, b), format!("{}*{}", a, b), format!("{}-{}", a, b), format!("{}/{}*{}", a, b, c), format!("{}/{}/{}", a, b, c), format!("avg({},{},{})", a, b, c), format!("sqrt({})", a), format!("ln({})", a), format!("{}^0.5", a)];
+        if has_fact_mod(ev) {
+            forms.extend([format!("{}%{}", a, b), format!("{}/{}%{}", a, b, c), format!("(0-{})%{}", a, b)]);
+        }
+        if ev == Ev::Cpx {
+            forms.extend([format!("({}+{}i)/({}-{}i)", a, b, c, a), format!("({}+{}i)^{}i", a, b, c)]);
+        }
+        let f = forms[rng.below(forms.len())].clone();
+        push(ev, &f, ph_pool(ev)[0], &mut lines);
+    }
     // random part
-    while lines.len() < n {
+    while lines.len() < n + n_long {
         for ev in crate::val::ALL_EV {
             let pool = ph_pool(ev);
             let leaf = hostile_leaf(ev);
